@@ -89,6 +89,46 @@ fn tag_function(m: &mut Mon, ends: &[f64], extra: &[f64]) {
     });
 }
 
+/// Pieces that are themselves piecewise functions (`Piecewise<T>` implements `Evaluate`, so `Piecewise<Piecewise<T>>`
+/// is an ordinary instance of the generic code; evaluation re-enters `Piecewise::evaluate` while the outer call is
+/// still running). Inner tag ids are offset per outer piece, so the value identifies (outer piece, inner piece, x).
+fn nested_function(m: &mut Mon, r: &mut Rng) {
+    let no = r.usize(1, 6);
+    let outer = gen_ends_any(r, no).0;
+    let inner: Vec<Vec<f64>> = (0..no).map(|_| { let k = r.usize(1, 5); gen_ends_any(r, k).0 }).collect();
+    let pw: Piecewise<Piecewise<Tag>> = Piecewise {
+        segments: outer.iter().enumerate().map(|(i, e)| Segment {
+            end: *e,
+            poly: Piecewise { segments: inner[i].iter().enumerate().map(|(j, ie)| Segment { end: *ie, poly: Tag { id: (i * 100 + j) as u32 } }).collect() },
+        }).collect(),
+    };
+    m.count("functions_nested");
+    m.case(hash_bits(22, outer.iter().chain(inner.iter().flatten()).map(|e| e.to_bits())));
+    let mut qs = critical_queries(&outer);
+    for ie in &inner {
+        qs.extend_from_slice(ie);
+    }
+    for &x in &qs {
+        if x.is_nan() {
+            continue;
+        }
+        m.eval();
+        let so = sel(&outer, x);
+        let si = sel(&inner[so], x);
+        let exp = tagval((so * 100 + si) as u32, x);
+        match guard(|| pw.evaluate(x)) {
+            Err(p) => m.panic("Piecewise::evaluate panic (nested piecewise pieces)", &p, || json!({"outer": hxs(&outer), "x": hx(x)})),
+            Ok(v) => {
+                if v.to_bits() != exp.to_bits() {
+                    m.violation("Piecewise::evaluate wrong-segment (nested piecewise pieces)", || {
+                        json!({"outer": hxs(&outer), "inner": inner.iter().map(|e| hxs(e)).collect::<Vec<_>>(), "x": hx(x), "expected_outer": so, "expected_inner": si, "observed_bits": hx(v)})
+                    });
+                }
+            }
+        }
+    }
+}
+
 // Real piece types are exercised through a macro (concrete types, method-call syntax) rather than a generic function:
 // user code calls `f.evaluate(x)` on a concrete `Piecewise<Poly1>`, where an inherent method would shadow the trait's.
 macro_rules! real_function {
@@ -209,6 +249,9 @@ pub fn run(a: &Args, m: &mut Mon) {
             .filter(|x| !x.is_nan())
             .collect();
         tag_function(m, &ends, &extra);
+        if k % 8 == 0 {
+            nested_function(m, &mut r);
+        }
         if k % 4 == 0 {
             macro_rules! go {
                 ($t:ident) => {
@@ -245,4 +288,5 @@ pub const FLOORS: &[&str] = &[
     "x_one_ulp_above_end",
     "x_one_ulp_below_end",
     "single_segment_function",
+    "functions_nested",
 ];
